@@ -167,11 +167,12 @@ pub fn c02_def() -> PropDef {
     PropDef {
         id: "C02",
         level: "exploration",
-        rule: "proptest (cfg: committee 4..7, stake profile, keys, which authority is the real node, scheduler seed; tape: script) -> solo rig, 'chains' and 'mixed' profiles: puppets holding >= quorum craft certified chains with round gaps (TC-justified or not), forks on older parents, orphaned certified blocks, children-first delivery answered through the sync path promptly / late / never, interleaved with timeouts and rounds led by the real node. Oracle on the node's commit channel D1,D2,...: D1's parent is the genesis placeholder, D(i+1).parent = digest(D(i)), no D(i) is the placeholder (round 0 / default author), no digest twice. Non-trivial: a commit whose ancestor walk ran (a committed block whose round is more than one above the previously committed round) or >= 3 commits after a fork/gap step; distinct by the node's output/commit sequence hash.",
+        rule: crate::props::universal::with_rule("proptest (cfg: committee 4..7, stake profile, keys, which authority is the real node, scheduler seed; tape: script) -> solo rig, 'chains' and 'mixed' profiles: puppets holding >= quorum craft certified chains with round gaps (TC-justified or not), forks on older parents, orphaned certified blocks, children-first delivery answered through the sync path promptly / late / never, interleaved with timeouts and rounds led by the real node. Oracle on the node's commit channel D1,D2,...: D1's parent is the genesis placeholder, D(i+1).parent = digest(D(i)), no D(i) is the placeholder (round 0 / default author), no digest twice. Non-trivial: a commit whose ancestor walk ran (a committed block whose round is more than one above the previously committed round) or >= 3 commits after a fork/gap step; distinct by the node's output/commit sequence hash."),
         assumptions: &["consensus nodes are not restarted (the code does not persist voting state; no listed property quantifies over restarts)"],
         parts: vec![
             part("chains", 20_000, 400_000, |c, x| c02_run(c, x, Profile::Chains)),
             part("mixed", 8_000, 150_000, |c, x| c02_run(c, x, Profile::Mixed)),
+            crate::props::universal::c02_part(),
         ],
     }
 }
@@ -238,11 +239,12 @@ pub fn c03_def() -> PropDef {
     PropDef {
         id: "C03",
         level: "exploration",
-        rule: "proptest cfg+tape -> solo rig, 'voting' and 'mixed' profiles: valid proposals for the node's round, second proposals for the same round, proposals after the node timed out (virtual time advanced past the timeout), gapped proposals with safe / unsafe / absent TCs, forks on older parents, wrong-leader proposals, stale and future votes/timeouts/TCs, blocks arriving through the sync and payload loop-back paths. Oracle over messages signed by the node (Vote frames it sends + its own signature inside QCs of its proposals): (i) at most one voted digest per round; (ii) wire vote rounds strictly increase over strictly increasing instants; (iii) no vote for round r emitted after its Timeout for a round >= r, and no vote at all for a block first delivered after such a timeout; (iv) every voted block is known and has qc.round+1 = round, or a TC with tc.round+1 = round and qc.round >= max(tc high-QC rounds); and qc.round < round. Non-trivial: the node cast >= 2 votes and the history contains a refusal opportunity (equivocation, proposal after its timeout, unsafe gap / TC); distinct by output-sequence hash.",
+        rule: crate::props::universal::with_rule("proptest cfg+tape -> solo rig, 'voting' and 'mixed' profiles: valid proposals for the node's round, second proposals for the same round, proposals after the node timed out (virtual time advanced past the timeout), gapped proposals with safe / unsafe / absent TCs, forks on older parents, wrong-leader proposals, stale and future votes/timeouts/TCs, blocks arriving through the sync and payload loop-back paths. Oracle over messages signed by the node (Vote frames it sends + its own signature inside QCs of its proposals): (i) at most one voted digest per round; (ii) wire vote rounds strictly increase over strictly increasing instants; (iii) no vote for round r emitted after its Timeout for a round >= r, and no vote at all for a block first delivered after such a timeout; (iv) every voted block is known and has qc.round+1 = round, or a TC with tc.round+1 = round and qc.round >= max(tc high-QC rounds); and qc.round < round. Non-trivial: the node cast >= 2 votes and the history contains a refusal opportunity (equivocation, proposal after its timeout, unsafe gap / TC); distinct by output-sequence hash."),
         assumptions: &["zero connect latency, so a frame is written in the instant it is created"],
         parts: vec![
             part("voting", 20_000, 400_000, |c, x| c03_run(c, x, Profile::Voting)),
             part("mixed", 6_000, 120_000, |c, x| c03_run(c, x, Profile::Mixed)),
+            crate::props::universal::c03_part(),
         ],
     }
 }
@@ -360,11 +362,12 @@ pub fn c05_def() -> PropDef {
     PropDef {
         id: "C05",
         level: "exploration",
-        rule: "proptest cfg+tape -> solo rig, 'chains' and 'mixed' profiles (chain shapes of C02 plus near-misses: certified child with a round gap, consecutive child never certified, TC only, votes below quorum, QC shown only inside a timeout's high-QC). Oracle: for each block C on the commit channel at log position p, Shown = reference-valid QCs inside frames delivered to the node before p, plus QCs derivable from quorum-many valid votes delivered to it (counting its own stake); C is justified iff some shown QC certifies a known block B1 with B1.parent = C and B1.round = C.round+1, or C is an ancestor of a justified block delivered at or before the same instant. Every commit must be justified (genesis placeholder deliveries are C02's business and ignored). Non-trivial: >= 1 commit and >= 1 near-miss stimulus (gap / fork / TC / sub-quorum votes) in the history.",
+        rule: crate::props::universal::with_rule("proptest cfg+tape -> solo rig, 'chains' and 'mixed' profiles (chain shapes of C02 plus near-misses: certified child with a round gap, consecutive child never certified, TC only, votes below quorum, QC shown only inside a timeout's high-QC). Oracle: for each block C on the commit channel at log position p, Shown = reference-valid QCs inside frames delivered to the node before p, plus QCs derivable from quorum-many valid votes delivered to it (counting its own stake); C is justified iff some shown QC certifies a known block B1 with B1.parent = C and B1.round = C.round+1, or C is an ancestor of a justified block delivered at or before the same instant. Every commit must be justified (genesis placeholder deliveries are C02's business and ignored). Non-trivial: >= 1 commit and >= 1 near-miss stimulus (gap / fork / TC / sub-quorum votes) in the history."),
         assumptions: &["the node's own vote is counted toward QCs it could have assembled (generous, hence sound)"],
         parts: vec![
             part("chains", 15_000, 300_000, |c, x| c05_run(c, x, Profile::Chains)),
             part("mixed", 6_000, 120_000, |c, x| c05_run(c, x, Profile::Mixed)),
+            crate::props::universal::c05_part(),
         ],
     }
 }
@@ -459,11 +462,12 @@ pub fn c08_def() -> PropDef {
     PropDef {
         id: "C08",
         level: "exploration",
-        rule: "proptest cfg+tape -> solo rig, 'payloads' profile: proposals whose payload has 0..3 batch digests; per digest the tape decides whether the batch reaches the node's mempool port before the proposal, shortly after, only in reply to its BatchRequest (or not even then), or never; direct, sync-resumed and payload-resumed processing paths. Oracle (store-write observer H4): for each Vote frame of the node for a block of another author and for each block on its commit channel, at log position p, every payload digest has a store write under that digest by the node before p. Non-trivial: a vote or commit for a block with >= 1 digest whose batch was not yet stored when the proposal was delivered; distinct by output-sequence hash.",
+        rule: crate::props::universal::with_rule("proptest cfg+tape -> solo rig, 'payloads' profile: proposals whose payload has 0..3 batch digests; per digest the tape decides whether the batch reaches the node's mempool port before the proposal, shortly after, only in reply to its BatchRequest (or not even then), or never; direct, sync-resumed and payload-resumed processing paths. Oracle (store-write observer H4): for each Vote frame of the node for a block of another author and for each block on its commit channel, at log position p, every payload digest has a store write under that digest by the node before p. Non-trivial: a vote or commit for a block with >= 1 digest whose batch was not yet stored when the proposal was delivered; distinct by output-sequence hash."),
         assumptions: &["the commit is logged when the harness drains the commit channel, i.e. not earlier than the real hand-over (conservative for this oracle)"],
         parts: vec![
             part("payloads", 15_000, 300_000, |c, x| c08_run(c, x, Profile::Payloads)),
             part("mixed", 5_000, 100_000, |c, x| c08_run(c, x, Profile::Mixed)),
+            crate::props::universal::c08_part(),
         ],
     }
 }
@@ -613,12 +617,13 @@ pub fn c10_def() -> PropDef {
     PropDef {
         id: "C10",
         level: "exploration",
-        rule: "proptest cfg+tape -> solo rig, 'voting', 'certs' and 'mixed' profiles (proposals, votes, timeouts, TCs in any order, past and future rounds, timer expiries). Oracle on the node's own messages: (i) the round fields of its Vote/Timeout/TC frames never decrease across strictly increasing instants (proposals, emitted by a separate task that may lag, are checked as their own stream); (ii) every Vote/Timeout/Propose it emits for a round R>1 is preceded in the log by a certificate for exactly R-1 available to it: a reference-valid QC or TC inside a delivered frame, or quorum-many valid votes for one block / timeouts of R-1 delivered to it (counting its own stake); (iii) each Timeout it signs carries a reference-valid (or genesis) high QC whose round is >= the QC round of every block it voted for earlier, of every earlier own timeout, and of every earlier own proposal. Non-trivial: the node acted in >= 3 rounds, entered through >= 2 kinds of evidence (QC and TC), and sent >= 1 timeout; distinct by output-sequence hash.",
+        rule: crate::props::universal::with_rule("proptest cfg+tape -> solo rig, 'voting', 'certs' and 'mixed' profiles (proposals, votes, timeouts, TCs in any order, past and future rounds, timer expiries). Oracle on the node's own messages: (i) the round fields of its Vote/Timeout/TC frames never decrease across strictly increasing instants (proposals, emitted by a separate task that may lag, are checked as their own stream); (ii) every Vote/Timeout/Propose it emits for a round R>1 is preceded in the log by a certificate for exactly R-1 available to it: a reference-valid QC or TC inside a delivered frame, or quorum-many valid votes for one block / timeouts of R-1 delivered to it (counting its own stake); (iii) each Timeout it signs carries a reference-valid (or genesis) high QC whose round is >= the QC round of every block it voted for earlier, of every earlier own timeout, and of every earlier own proposal. Non-trivial: the node acted in >= 3 rounds, entered through >= 2 kinds of evidence (QC and TC), and sent >= 1 timeout; distinct by output-sequence hash."),
         assumptions: &["zero connect latency; same-instant emissions are compared as sets"],
         parts: vec![
             part("voting", 10_000, 200_000, |c, x| c10_run(c, x, Profile::Voting)),
             part("certs", 6_000, 120_000, |c, x| c10_run(c, x, Profile::Certs)),
             part("mixed", 4_000, 80_000, |c, x| c10_run(c, x, Profile::Mixed)),
+            crate::props::universal::c10_part(),
         ],
     }
 }
@@ -904,8 +909,8 @@ fn c20_run(case: &Case, _ctx: &Ctx) -> Outcome {
                         // the TC and the QC's vote list are not covered by the digest: the stored copy is
                         // one of the variants delivered under this digest
                         let vars = variants_before(&run, d, u64::MAX);
-                        let back_bytes = bincode::serialize(&back).unwrap();
-                        if !vars.iter().any(|v| bincode::serialize(v).unwrap() == back_bytes) {
+                        let back_shape = crate::props::c20::shape(&back);
+                        if !vars.iter().any(|v| crate::props::c20::shape(v) == back_shape) {
                             out.violate("sync-reply-differs-from-stored-block", format!("block of round {} came back different through the store", orig.round), hist_json(&run));
                         }
                         if back.digest() != *d {
